@@ -66,7 +66,13 @@ func TestVerifC14HS(t *testing.T) {
 		})
 	}
 	for _, issuerOK := range []bool{true, false} {
-		for _, reason := range []int{acme.ReasonUnspecified, acme.ReasonKeyCompromise} {
+		for _, reason := range []int{acme.ReasonUnspecified, acme.ReasonKeyCompromise, -acme.ReasonKeyCompromise} {
+			// (negative: key compromise AND the key file is already gone from storage — there is
+			// nothing left to quarantine, the replacement is ordered all the same)
+			keyGone := reason < 0
+			if keyGone {
+				reason = -reason
+			}
 			synctest.Test(t, func(t *testing.T) {
 				st := vNewMem()
 				ca := vNewCA("c14hs")
@@ -86,6 +92,9 @@ func TestVerifC14HS(t *testing.T) {
 					t.Fatal(err)
 				}
 				hsRevokeCached(cache, name, reason)
+				if keyGone {
+					st.Delete(ctx, StorageKeys.SitePrivateKey(iss.IssuerKey(), name))
+				}
 				if !issuerOK {
 					iss.Behave = func(int, []string) error { return ErrNoRetry{Err: fmt.Errorf("verif: issuer refuses")} }
 				}
@@ -93,7 +102,7 @@ func TestVerifC14HS(t *testing.T) {
 				synctest.Wait()
 				time.Sleep(10 * time.Minute)
 				synctest.Wait()
-				replay := map[string]any{"issuer_ok": issuerOK, "reason": reason, "issuer_calls": len(iss.Calls())}
+				replay := map[string]any{"issuer_ok": issuerOK, "reason": reason, "key_file_gone": keyGone, "issuer_calls": len(iss.Calls())}
 				stillCached := false
 				for _, c := range cache.getAllMatchingCerts(name) {
 					if c.Leaf != nil && c.Leaf.Equal(cur.leaf) {
